@@ -55,7 +55,7 @@ invariant
     is_anc(*current, *path), // OBL:C20.origins.walk_stays_on_the_chain
     forall|a: PathS| origins.v@.contains(a) ==> is_anc(a, *path) && marked(fs_entries(a)), // OBL:C20.origins.inv_only_marked_members_of_the_chain
     forall|a: PathS| is_anc(a, *path) && marked(fs_entries(a)) && !strict_anc(a, *current) ==> origins.v@.contains(a), // OBL:C20.origins.inv_every_marked_member_visited_so_far
-decreases depth(*current),
+decreases depth(*current), // OBL:C20.origins.the_walk_up_terminates
 //@ item types
 //@ header
 pub fn types(path: &PathS) -> (r: TypeSet)
